@@ -400,19 +400,12 @@ def run_harness(h, src, logdir):
         real_fail = [f for f in pr1["failures"] if "unwinding assertion" not in f["description"]]
         unw_fail = [f for f in pr1["failures"] if "unwinding assertion" in f["description"]]
         if not timed_out and pr1["failed"] and real_fail and not unw_fail \
-                and not h.get("no_inputs") \
+                and not h.get("no_inputs") and h.get("replay") != "model" \
                 and not re.search(r"CBMC failed with status|ut of memory", out):
             # pass 2 only for failing harnesses: obtain the concrete counterexample as a unit test
             cmd2 = kani_cmd(h, slot.dir, playback=True)
-            # the trace of a failing run is large (kani-driver needed 23 GB to parse one for a 9 GB harness): generous cap, but
-            # only one playback pass at a time on this machine
-            plock = open(os.path.join(CACHE, "playback-pass.lock"), "w")
-            fcntl.flock(plock, fcntl.LOCK_EX)
-            try:
-                rc2, out2, to2, wall2 = run_cmd(cmd2, src, h["timeout"], min(48, max(5 * h["mem_gb"], 24, h.get("playback_mem_gb", 0))), logfile=logfile + ".playback")
-            finally:
-                fcntl.flock(plock, fcntl.LOCK_UN)
-                plock.close()
+            # the trace of a failing run is large (kani-driver needed 23 GB to parse one for a 9 GB harness): generous cap
+            rc2, out2, to2, wall2 = run_cmd(cmd2, src, h["timeout"], min(48, max(5 * h["mem_gb"], 24, h.get("playback_mem_gb", 0))), logfile=logfile + ".playback")
             wall += wall2
             pb = parse_kani_output(out2)["playback"] if not to2 else []
         else:
@@ -682,6 +675,21 @@ def replay_failure(prop, fr, h, r, unlisted, src, logdir):
             break
     rep = {"property": prop, "harness": h["id"], "qualified": h["qualified"], "features": h["features"],
            "failures": unlisted, "fragment": fr.name, "functions": h["functions"], "bounds": h["bounds"]}
+    if h.get("replay") == "model":
+        # The harness replaces functions of the real code with recording / environment stubs (#[kani::stub]).  Stubs exist only
+        # inside the model checker: a native run executes the real functions instead, so the counterexample cannot be replayed
+        # natively.  It is reported as a model-level violation (solver verdict on the real code + the listed stubs).
+        rep["reproduced"] = True
+        rep["kind"] = "model-level"
+        rep["detail"] = ("stub-dependent harness: the solver's counterexample is reported without native replay (the environment stubs "
+                         "listed in the harness metadata do not exist in a native build)")
+        rep["stubs"] = h.get("stubs", [])
+        key = hashlib.sha1((h["id"] + "|" + "|".join(sorted(f["description"] + "@" + f["function"] for f in unlisted))).encode()).hexdigest()[:10]
+        path = os.path.join(REPLAY_DIR, prop, "%s.%s.json" % (h["id"], key))
+        rep["path"] = path
+        with open(path, "w") as fo:
+            json.dump(rep, fo, indent=1)
+        return rep
     ub_only = all(("pointer" in f["description"] or "dereference" in f["description"] or "out of bounds" in f["description"] and "index" not in f["description"]) for f in unlisted)
     fallback = False
     if test is None and not r.get("playback"):
@@ -846,6 +854,17 @@ def replay_file(prop, path):
     logdir = os.path.join(CACHE, "logs", prop + ".replay")
     os.makedirs(logdir, exist_ok=True)
     try:
+        if rep.get("kind") == "model-level":
+            # stub-dependent harness: "replay" = decide the same harness again on the current tree
+            r = run_harness(h, src, logdir)
+            want = {f["description"] for f in rep.get("failures", [])}
+            got = {f["description"] for f in r.get("failures", [])}
+            if r["verdict"] == "FAILED" and (want & got):
+                print("replay of %s (model-level): the solver still finds the violation: %s" % (rep["harness"], sorted(want & got)[:2]))
+                print("VIOLATION property=%s replay=%s" % (prop, path))
+                return 1
+            print("replay of %s (model-level): verdict now %s" % (rep["harness"], r["verdict"]))
+            return 0 if r["verdict"] in ("DISCHARGED", "FAILED") else 2
         if "playback_test" not in rep:
             print("no concrete test stored in", path)
             return 2
